@@ -66,6 +66,13 @@ def _case(draw, knob):
         state = "stale"  # creating a method that does not exist is finding KF-N03 (C09), not this property's core
     trailing = draw(st.booleans())
     m["trailing_newline"] = trailing
+    if not trailing and draw(st.integers(0, 2)) == 0:
+        m["trailing_ws"] = draw(st.sampled_from(("    ", "\t", " ")))
+    if draw(st.integers(0, 3)) == 0:
+        # an import whose imported (not bound) name is spelt like the target: `from legacy import TargetClass as _Legacy`
+        nm = project.NAMES[target].split(".")[-1]
+        m["body"].insert(draw(st.integers(0, len(m["body"]))), {"k": "import", "src": draw(st.sampled_from((
+            "from legacy import %s as _Legacy" % nm, "import %s as _legacy_mod" % nm, "from legacy import other, %s as _L2" % nm)))})
     pos = draw(st.integers(0, len(m["body"])))
     if not method and state != "absent" and (knob == "rebound_functiondef" or (target == "class" and draw(st.integers(0, 2)) == 0)):
         # a second binding of the target's name after the definition: `TargetClass = register(TargetClass)`
@@ -117,6 +124,10 @@ def run_case(case):
         tags.add("no_trailing_newline")
         if case["state"] == "absent":
             tags.add("append_no_newline")
+    if m.get("trailing_ws"):
+        tags.add("trailing_ws")
+    if any(s_.get("k") == "import" and " as _L" in s_.get("src", "") or " as _legacy_mod" in s_.get("src", "") for s_ in m["body"]):
+        tags.add("import_alias_decoy")
     if m.get("doc"):
         tags.add("module_doc")
     names = [n for p, _ in progs.model_locations(ast.parse(progs.render(m))) for n in p[-1:]]
